@@ -12,8 +12,9 @@ LEVEL_NOTE = "necessary conditions only"
 
 
 def run(ctx):
-    g_sync.run_all(ctx, ["Y2", "Y3", "Y4", "O4"])
+    g_sync.run_all(ctx, ["Y2", "Y3", "Y4", "O4", "Y1c"])
     from . import atomics
     atomics.O1(ctx)
     atomics.O2(ctx)
     atomics.O3(ctx)
+    atomics.M5(ctx)
